@@ -2,8 +2,8 @@
 META = {
     "level": "exploration",
     "technique": "runtime oracle on the real create_grid_manager_verifier(): seeded certificate mixes and time walks, judged by a by-construction predicate with an independent ed25519 decision",
-    "text": "Executes the real allmydata.grid_manager (create_grid_manager_verifier, validate_grid_manager_certificate, _GridManager.sign, SignedCertificate.marshal/load) with real ed25519 keys on seeded mixes of certificates (valid, issued by the real sign(), other server, non-configured or self signer, expired, about to expire, every-byte-position tampering of certificate and signature, re-targeted / expiry-extended forgeries, swapped signatures, duplicates, container-level malformations) and calls the same verifier repeatedly while a virtual now_fn moves across the expiry instants. Oracle: permitted iff no keys configured or some certificate verifies (cryptography called directly) under a configured key, names the server and has integer-microsecond expiry > now. Sampled; the single-byte tamper sweep is complete per base certificate.",
-    "note": "Trusts the cryptography package's Ed25519 verify and the harness' integer-microsecond clock; at the instant now == expires the certificate counts as expired (judged); version != 1, lenient key spelling and manager-signed malformed certificates are counted as dont_care.",
+    "text": "Executes the real allmydata.grid_manager (create_grid_manager_verifier, validate_grid_manager_certificate, _GridManager.sign, SignedCertificate.marshal/load) with real ed25519 keys on seeded mixes of certificates (valid, issued by the real sign(), other server, non-configured or self signer, expired, about to expire, every-byte-position tampering of certificate and signature, re-targeted / expiry-extended forgeries, swapped signatures, duplicates, container-level malformations) and calls the same verifier repeatedly while a virtual now_fn moves across the expiry instants. Oracle: permitted iff no keys configured or some certificate verifies (cryptography called directly) under a configured key, names the server and has integer-microsecond expiry > now. Also a broker-level workload: a real StorageFarmBroker with grid-manager keys receives announcements (_got_announcement / set_static_servers) whose grid-manager-certificates list holds one of 12 kinds of unparseable entry alone, before or after a certificate for another server / an expired one / a foreign-signed one / a valid one, and random longer lists; the server is connected through the tub callback and 'permitted' is read off get_servers_for_psi(for_upload=True) and upload_permitted() (an unregistered server counts as not permitted). Sampled; the single-byte tamper sweep is complete per base certificate.",
+    "note": "Trusts the cryptography package's Ed25519 verify and the harness' integer-microsecond clock; at the instant now == expires the certificate counts as expired (judged); version != 1, lenient key spelling and manager-signed malformed certificates are counted as dont_care. A valid certificate announced next to an unparseable one: the tree drops the whole announcement (server not registered); counted as an observation, not judged (lead's decision pending).",
 }
 LEVEL = "exploration"
 BUDGET = {"quick": 35, "thorough": 240}
@@ -434,7 +434,213 @@ def run(ck):
         c = base.clone("container:" + name, cert=sc.certificate, sig=sc.signature)
         evaluate([c], [m], target, [T0, T0 + 10 ** 9 - 1, T0 + 10 ** 9 + 1], "container")
 
-    ck.require_monitor("permission-predicate", "signature-check")
+
+    # ------------------------------------------------------------ 4. broker level: announcements with unparseable certificates
+    # A real StorageFarmBroker with grid-manager keys receives the announcement through the introducer-client entry
+    # point (_got_announcement) or the static-server one; the server is then connected through the callback the (fake)
+    # tub was given.  "Permitted" is read off get_servers_for_psi(for_upload=True) / IServer.upload_permitted(); a
+    # server the broker did not register counts as not permitted.
+    import contextlib
+    from twisted.application import service
+    from twisted.internet import defer
+    from allmydata.storage_client import StorageFarmBroker, StorageClientConfig
+    from allmydata.node import config_from_string
+    from allmydata.client import _valid_config
+
+    class FakeTub(service.MultiService):
+        def __init__(self, registry):
+            service.MultiService.__init__(self)
+            self.registry = registry
+        def connectTo(self, furl, cb):
+            self.registry.append(cb)
+            class R(object):
+                def reset(self): pass
+                def stopConnecting(self): pass
+                def getReconnectionInfo(self): return None
+            return R()
+
+    class FakeRref(object):
+        def callRemote(self, name, *a, **kw):
+            return defer.succeed({b"http://allmydata.org/tahoe/protocols/storage/v1": {b"maximum-immutable-share-size": 2 ** 32},
+                                  b"application-version": b"fake"})
+        def notifyOnDisconnect(self, cb, *a, **kw): pass
+        def getDataLastReceivedAt(self): return None
+
+    def entry_of(c):
+        return {"certificate": c.cert.decode("utf-8"), "signature": b32(c.sig).decode("ascii")}
+
+    def garble(kind, c):
+        """-> (announcement entry that cannot be parsed into a SignedCertificate, lenient)"""
+        e = entry_of(c)
+        sig = e["signature"]
+        if kind == "sig-non-base32-char":
+            e["signature"] = sig[:17] + rng.choice("!1089=_ ") + sig[18:]
+        elif kind == "sig-uppercase":
+            e["signature"] = sig.upper()
+        elif kind == "sig-truncated-impossible-length":
+            e["signature"] = sig[:-2]               # 101 chars: no byte string encodes to that length
+        elif kind == "sig-padded":
+            e["signature"] = sig + "======"
+        elif kind == "sig-non-ascii":
+            e["signature"] = sig[:-1] + "\u00e9"
+        elif kind == "sig-noncanonical-tail":
+            e["signature"] = sig[:-1] + ("b" if sig[-1] != "b" else "c")
+        elif kind == "signature-missing":
+            del e["signature"]
+        elif kind == "certificate-missing":
+            del e["certificate"]
+        elif kind == "signature-not-a-string":
+            e["signature"] = rng.choice([7, None, [sig], {"sig": sig}])
+        elif kind == "certificate-not-a-string":
+            e["certificate"] = rng.choice([7, None, [e["certificate"]], json.loads(e["certificate"])])
+        elif kind == "entry-not-a-dict":
+            e = rng.choice([sig, [e["certificate"], sig], 7, None])
+        elif kind == "entry-empty-dict":
+            e = {}
+        return e, kind in ("sig-uppercase", "sig-padded")
+    GARBLES = ["sig-non-base32-char", "sig-uppercase", "sig-truncated-impossible-length", "sig-padded", "sig-non-ascii",
+               "sig-noncanonical-tail", "signature-missing", "certificate-missing", "signature-not-a-string",
+               "certificate-not-a-string", "entry-not-a-dict", "entry-empty-dict"]
+
+    def broker_case(entries, parsed, lenient_valid, configured, target, instants, path, label, garbled_kinds):
+        """entries: the announced list; parsed: the Cert objects among them that are well-formed (for the oracle)"""
+        now_box = [instants[0]]
+        gm.current_datetime_with_zone = lambda: dt_of(now_box[0])
+        chatter = io.StringIO()
+        registry = []
+        raised = None
+        try:
+            with contextlib.redirect_stdout(chatter):
+                cfg = config_from_string("/nonexistent-vf", "tub.port", "[client]\nforce_foolscap = true\n", _valid_config())
+                sb = StorageFarmBroker(True, lambda overrides: FakeTub(registry), cfg, StorageClientConfig(
+                    grid_manager_keys=[ed25519.verifying_key_from_string(k.pub_s) for k in configured]))
+                furl = "pb://62ubehyunnyhzs7r6vdonnm2hpi52w6y@tcp:127.0.0.1:1/swiss"
+                ann = {"anonymous-storage-FURL": furl, "nickname": "srv", "grid-manager-certificates": entries}
+                try:
+                    if path == "announce":
+                        sb._got_announcement(target.v0, dict(ann, **{"service-name": "storage"}))
+                    else:
+                        sb.set_static_servers({target.v0.decode("ascii"): {"ann": ann}})
+                except Exception as e:
+                    raised = e
+                    ck.hit("broker-announcement-raises")
+                registered = [x for x in sb.get_known_servers() if x.get_serverid() == target.v0]
+                if registered and registry:
+                    registry[-1](FakeRref())          # the tub reports the connection
+                    while env.evq.pending():
+                        env.evq._turn()
+                psi = b"\x01" * 16
+                for now_us in instants:
+                    now_box[0] = now_us
+                    exp, why = expected(parsed, configured, target.pub_s, now_us)
+                    in_all = target.v0 in [x.get_serverid() for x in sb.get_servers_for_psi(psi)]
+                    try:
+                        in_upload = target.v0 in [x.get_serverid() for x in sb.get_servers_for_psi(psi, for_upload=True)]
+                        api = registered[0].upload_permitted() if registered else False
+                    except Exception as e:
+                        in_upload, api = False, False
+                        ck.observe("broker-upload-selection-raises")
+                    wit = {"configured": [k.pub_s for k in configured], "server": target.v0, "path": path, "now_us": now_us,
+                           "grid-manager-certificates": entries, "garbled": garbled_kinds,
+                           "parsed_status": [status(c, configured, target.pub_s, now_us) for c in parsed],
+                           "registered": bool(registered), "raised": repr(raised) if raised else None}
+                    if registered and bool(api) != in_upload and in_all:
+                        ck.violation("broker-upload-list-disagrees-with-upload_permitted",
+                                     "get_servers_for_psi(for_upload=True) membership %r != upload_permitted() %r" % (in_upload, api), wit)
+                    if exp is None or (lenient_valid and exp is not True):
+                        ck.skip("broker:" + (why if exp is None else "leniently-spelled-valid-certificate"))
+                        continue
+                    ck.mon("broker-permission-predicate")
+                    if exp is False:
+                        ck.hit("broker-denied")
+                        if garbled_kinds:
+                            ck.hit("broker-denied-with-unparseable-certificate")
+                        if in_upload or api:
+                            key = ("permits-server-with-unparseable-certificate" if garbled_kinds
+                                   else "broker-permits-without-good-certificate")
+                            ck.violation(key, "with grid-manager keys configured the broker offers a server for uploads although no "
+                                         "announced certificate is signed by a configured key, names it and is unexpired"
+                                         + (" (unparseable entries: %s)" % garbled_kinds if garbled_kinds else ""), wit)
+                    else:
+                        if in_upload and api:
+                            ck.hit("broker-granted")
+                        elif garbled_kinds and not registered:
+                            ck.violation("server-with-valid-certificate-dropped-because-of-unparseable-sibling",
+                                         "a server announcing a valid, unexpired certificate for itself next to an unparseable "
+                                         "one (%s) is never registered, so it is not permitted for uploads" % (garbled_kinds,),
+                                         wit)
+                        else:
+                            ck.violation("broker-denies-despite-good-certificate",
+                                         "broker does not offer a connected server for uploads although it announced a valid, "
+                                         "unexpired certificate for itself", wit)
+        finally:
+            gm.current_datetime_with_zone = real_now
+            for dc in list(env.reactor.getDelayedCalls()):
+                if dc.active():
+                    dc.cancel()
+        ck.case("broker", key=(label, path, tuple(instants), repr(entries), tuple(k.pub_s for k in configured)),
+                nontrivial=bool(garbled_kinds),
+                sample={"layout": label, "path": path, "garbled": garbled_kinds, "registered": bool(registered),
+                        "raised": type(raised).__name__ if raised else None})
+
+    nrounds = 1 if ck.tier == "quick" else 4
+    for rnd in range(nrounds):
+        m = Key(rng, "M0"); m2 = Key(rng, "M1"); target = Key(rng, "S0"); other = Key(rng, "S1")
+        far = T0 + 10 ** 12
+        companions = {
+            "alone": None,
+            "other-server": lambda: mk("other-server", m, other.pub_s, far),
+            "expired": lambda: mk("expired", m, target.pub_s, T0 - 10 ** 6),
+            "foreign-signer": lambda: mk("unconfigured-signer", Key(rng, "Mx"), target.pub_s, far),
+            "valid-for-this-server": lambda: mk("valid", m, target.pub_s, far),
+        }
+        for gk in GARBLES:
+            for comp_name in sorted(companions):
+                for pos in ("before", "after"):
+                    if ck.out_of_time():
+                        break
+                    if comp_name == "alone" and pos == "after":
+                        continue
+                    # what gets garbled: a certificate that would otherwise have been good, or somebody else's
+                    base_c = mk("valid", rng.choice([m, m2]), target.pub_s, far) if rng.random() < .7 else \
+                        mk("other-server", m, other.pub_s, far)
+                    g, lenient = garble(gk, base_c)
+                    comp = companions[comp_name]() if companions[comp_name] else None
+                    entries = [g] if comp is None else ([g, entry_of(comp)] if pos == "before" else [entry_of(comp), g])
+                    parsed = [comp] if comp is not None else []
+                    ck.hit("broker-garble:" + gk)
+                    ck.hit("broker-layout:%s-%s" % (comp_name, pos if comp else "only"))
+                    broker_case(entries, parsed, lenient and base_c.subject == target.pub_s, [m, m2] if rnd % 2 else [m], target,
+                                [T0 + 1, far + 1], rng.choice(["announce", "announce", "static"]),
+                                "%s/%s/%s" % (gk, comp_name, pos), [gk])
+        # controls without any unparseable entry, and random longer lists
+        for i in range(60 if ck.tier == "quick" else 200):
+            if ck.out_of_time():
+                break
+            soon = T0 + 2 * rng.randrange(1, 10 ** 6)
+            pool = [lambda: mk("valid", m, target.pub_s, far), lambda: mk("soon", m, target.pub_s, soon),
+                    lambda: mk("expired", m, target.pub_s, T0 - 1), lambda: mk("other-server", m, other.pub_s, far),
+                    lambda: mk("unconfigured-signer", Key(rng, "Mx"), target.pub_s, far),
+                    lambda: tamper_sig(mk("valid", m, target.pub_s, far), rng.randrange(64), "tamper-sig"),
+                    lambda: (lambda c: c.clone("tamper-cert", cert=c.cert.replace(b'"version":1', b'"version":2')))(
+                        mk("valid", m, target.pub_s, far))]
+            parsed, entries, gks = [], [], []
+            for _ in range(rng.randint(0, 4)):
+                c = rng.choice(pool)()
+                if rng.random() < .25:
+                    gk = rng.choice(GARBLES)
+                    g, lenient = garble(gk, c)
+                    if lenient:
+                        continue
+                    entries.append(g); gks.append(gk)
+                else:
+                    entries.append(entry_of(c)); parsed.append(c)
+            broker_case(entries, parsed, False, [m], target, sorted({T0 + 1, soon - 1, soon, soon + 1, far + 1}),
+                        rng.choice(["announce", "static"]), "random", gks)
+
+    ck.require_monitor("permission-predicate", "signature-check", "broker-permission-predicate")
+    ck.require_reach("broker-granted", "broker-denied", "broker-denied-with-unparseable-certificate",
+                     *["broker-garble:" + g for g in GARBLES])
     ck.require_reach("granted", "denied", "denied-at-expiry-instant", "expired-during-history", "bad-signature-rejected", "real-sign",
                      "tamper:val:expires", "tamper:val:public_key", "tamper:val:version", "tamper:sig-R", "tamper:sig-S",
                      "forgery:forged-retarget", "forgery:forged-extend-expiry")
@@ -450,4 +656,9 @@ def run(ck):
 #   `for key in keys:` -> `for key in keys[:1]:` (only first manager key) ....... caught: denies-despite-good-certificate
 #   no keys -> `lambda: False` .................................................. caught: denies-despite-good-certificate
 #   validate() returns at the first certificate naming the server (even expired)  caught: denies-despite-good-certificate
+#   seeded C33-3 (unparseable certificate => verifier None => permitted) ........ caught: permits-server-with-unparseable-certificate
+#   storage_client.py: NativeStorageServer.upload_permitted always True; verifier built with [] keys; verifier bound to
+#   another identity ........................................................... caught: broker-permits-without-good-certificate /
+#                                                                                        broker-denies-despite-good-certificate
+#   (list in selftest/breaks_c33.py: 11/11 caught; seeded C33-1..4: 4/4 caught)
 #   `expires > now` -> `now > expires: continue` (seeded C33-1: still valid at now == expires)  caught: permits-without-good-certificate
